@@ -87,7 +87,9 @@ TUserModel ==
 \* C15: every mutation of the shared sync state happens while the mutating thread holds the state lock
 TPrim ==
   /\ Ev.ev = "Prim"
-  /\ Check(Ev.owned = 1, "LockOwned")
+  \* a mutation by a thread that does not own the state lock, or an atomic step (entry synchronisation, event application,
+  \* on-demand request) that let go of the lock / took it twice: two critical sections where the property demands one
+  /\ Check(Ev.owned = 1, IF Ev.key \in {"lock-released-mid-step", "lock-taken-again-mid-step"} THEN "StepAtomic" ELSE "LockOwned")
   /\ UNCHANGED <<tr, phase, lastUser, corrupt>> /\ LedgerFrame /\ UNCHANGED Aux
   /\ Advance
 
